@@ -1,15 +1,22 @@
 #!/bin/bash
-# usage: seed_run.sh [seed-id ...]   runs the registered check of each seeded change's property with the change applied to /repo
+# usage: seed_run.sh [seed-id ...]
+# Runs the registered quick check of each seeded change's property with the change applied to a scratch
+# worktree of /repo (never to /repo itself); evidence and caches of these runs go to scratch directories.
 cd /verif
 ids="$@"; [ -z "$ids" ] && ids=$(ls seeded)
+wt=/tmp/seedrepo_$$
+git -C /repo worktree remove --force $wt >/dev/null 2>&1
+git -C /repo worktree add -q --detach $wt HEAD || exit 1
+mkdir -p /tmp/seedrun_ev_$$ /tmp/seedrun_cache_$$
 for id in $ids; do
   prop=$(python3 -c "import json;print(json.load(open('seeded/$id/meta.json'))['breaks_property'])")
-  git -C /repo checkout -q -- . ; git -C /repo apply /verif/seeded/$id/patch.diff || { echo "$id: patch does not apply"; continue; }
+  git -C $wt checkout -q -- . ; git -C $wt apply /verif/seeded/$id/patch.diff || { echo "$id: patch does not apply"; continue; }
   t0=$(date +%s)
-  python3 check.py $prop > /tmp/seedrun_$id.log 2>&1; rc=$?
-  git -C /repo checkout -q -- .
+  VERIF_REPO=$wt VERIF_EVIDENCE=/tmp/seedrun_ev_$$ VERIF_CACHE=/tmp/seedrun_cache_$$ python3 check.py $prop > /tmp/seedrun_$id.log 2>&1; rc=$?
   t1=$(date +%s)
   v=$(grep -c "^VIOLATION" /tmp/seedrun_$id.log)
   u=$(grep -c "^UNCONFIRMED" /tmp/seedrun_$id.log)
-  echo "$id property=$prop exit=$rc violations=$v unconfirmed=$u wall=$((t1-t0))s :: $(grep '^VIOLATION\|obligation ' /tmp/seedrun_$id.log | head -2 | tr '\n' ' ' | cut -c1-200)"
+  echo "$id property=$prop exit=$rc violations=$v unconfirmed=$u wall=$((t1-t0))s :: $(grep '^VIOLATION\|obligation \|quick:' /tmp/seedrun_$id.log | head -3 | tr '\n' ' ' | cut -c1-300)"
 done
+git -C /repo worktree remove --force $wt >/dev/null 2>&1
+rm -rf /tmp/seedrun_ev_$$ /tmp/seedrun_cache_$$
